@@ -67,6 +67,10 @@ CLAIMED = {
   "for every manifest response of the simulated players (all templates and modes, rich option vectors incl. licence URLs with reserved characters, DRM location subsets, event schedules, error/corruption injection, bug compatibility) the harness captures the OptionsContainer the manifest request resolved (ManifestContext.__init__ wrapped from outside) and feeds the query string of every AdaptationSet's initialization/media URL, read from the XML text as a client sees it, to the server's own option parser under the same stream defaults: every option whose usage includes that media type must compare equal, options whose usage excludes it must be absent; the URL round trip from_string(query-decode(to_string(v))) == v is evaluated for the values that flow; clients with other option vectors are interleaved and the server restarted (process-global option defaults)",
   "vehicle property: sampled; error/corruption options are rewritten to segment numbers by design and only checked for parseability; the round-trip identity over all values of all types is a pure function and is only evaluated for values that occur",
   TECH + "captured-options vs parsed-URL comparison on every manifest"),
+ "C11": ("exploration",
+  "claimed in part. (a) ClearKey licence store, stateful: a manager adds, edits and deletes keys through the API while a licence client POSTs /clearkey with mixes of known, unknown, duplicate and malformed ids; reference model kid -> key follows acknowledged operations, keeps both outcomes for an operation whose response was lost until a read resolves it, and each answer is judged against the model as it was when the request was served; duplicated requests and restarts injected. (b) cross-message agreement on every encrypted manifest the players fetch: cenc:default_KID equals the KID in the stored tenc box, ContentProtection elements equal systems x locations requested, each cenc:pssh / mspr:pro payload equals what the init segment of the same request carries. (c) every PlayReady Object seen in flight (manifest and init) is parsed by an independent reader and its key id (RFC 4122 bytes_le), LA_URL, AES-ECB checksum and, for computed keys, Microsoft's key-seed algorithm are re-derived with hashlib/uuid/pycryptodome",
+  "the quantifier over all 16-byte key ids, seeds and licence-URL strings of the pure helper functions is NOT addressed by this family: only the keys that occur in runs (fixture KIDs, manager-generated random ones) are covered",
+  TECH + "reference model of the key store + cross-message comparison"),
 }
 
 PENDING_REASON = "check not built yet in this session (planned, see DESIGN.md build order); not claimed until its simulation exists"
